@@ -1,6 +1,7 @@
 package checks
 
 import (
+	"os"
 	"archive/tar"
 	"archive/zip"
 	"bytes"
@@ -229,6 +230,7 @@ func runC50(c *fw.Ctx) {
 		filter  string
 		fkind   string // none | dir | file
 		format  string
+		filters []string // several path filters (the extra requests); nil = {filter}
 	}
 	var reqs []request
 	for ti, tc := range cases {
@@ -243,15 +245,26 @@ func runC50(c *fw.Ctx) {
 			}
 			for _, f := range fl {
 				for _, fm := range formats {
-					reqs = append(reqs, request{tc, ti, tc.commit, "commit", pf, f.p, f.k, fm})
+					reqs = append(reqs, request{tc, ti, tc.commit, "commit", pf, f.p, f.k, fm, nil})
 				}
 			}
 		}
 		for _, fm := range formats {
-			reqs = append(reqs, request{tc, ti, tc.tree, "tree", "", "", "none", fm})
-			reqs = append(reqs, request{tc, ti, tc.tag, "tag", "", "", "none", fm})
+			reqs = append(reqs, request{tc, ti, tc.tree, "tree", "", "", "none", fm, nil})
+			reqs = append(reqs, request{tc, ti, tc.tag, "tag", "", "", "none", fm, nil})
 		}
 	}
+	if os.Getenv("S13_ONLY_NEW") != "" { // development aid: only the extra requests
+		reqs = nil
+	}
+	richTC := &treeCase{}
+	// the extra requests go first: one request each for shapes the enumeration
+	// below repeats many times, so a deadline should cut the enumeration's tail
+	var extraReqs []request
+	c50ExtraRequests(c, g, func(kind, treeish, prefix, fkind, format string, filters []string) {
+		extraReqs = append(extraReqs, request{richTC, -1, treeish, kind, prefix, strings.Join(filters, " "), fkind, format, filters})
+	})
+	reqs = append(extraReqs, reqs...)
 	c.Bound("requests", len(reqs))
 
 	type failure struct {
@@ -263,14 +276,20 @@ func runC50(c *fw.Ctx) {
 	c.ParDo(len(reqs), 0, func(i int) {
 		rq := reqs[i]
 		c.Eval()
-		args := []string{"archive", "--format=" + rq.format}
+		args := []string{"archive"}
+		if rq.format != "" {
+			args = append(args, "--format="+rq.format)
+		}
 		if rq.prefix != "" {
 			args = append(args, "--prefix="+rq.prefix)
 		}
 		args = append(args, rq.treeish)
-		if rq.filter != "" {
-			args = append(args, rq.filter)
+		filters := rq.filters
+		if filters == nil && rq.filter != "" {
+			filters = []string{rq.filter}
 		}
+		args = append(args, filters...)
+		gzipped := rq.format == "tar.gz" || rq.format == "tgz"
 		gr := g.Run(args...)
 		var gp *arParsed
 		var gerr error
@@ -278,7 +297,7 @@ func runC50(c *fw.Ctx) {
 			if rq.format == "zip" {
 				gp, gerr = c50ParseZip(gr.Out)
 			} else {
-				gp, gerr = c50ParseTar(gr.Out, rq.format == "tar.gz")
+				gp, gerr = c50ParseTar(gr.Out, gzipped)
 			}
 			if gerr != nil {
 				fw.Abort("cannot parse git archive output (%v): %v", args, gerr)
@@ -293,10 +312,7 @@ func runC50(c *fw.Ctx) {
 					oerr = fmt.Errorf("panic: %v", r)
 				}
 			}()
-			var paths []string
-			if rq.filter != "" {
-				paths = []string{rq.filter}
-			}
+			paths := filters
 			rc, err := repo.Archive(&git.ArchiveOptions{Format: rq.format, Prefix: rq.prefix, Treeish: rq.treeish, Paths: paths})
 			if err != nil {
 				oerr = err
@@ -311,7 +327,7 @@ func runC50(c *fw.Ctx) {
 		}
 		desc := map[string]any{"tree_elements": ids, "tree_ish": rq.kind, "prefix": rq.prefix, "filter": rq.filter, "format": rq.format, "git_args": args}
 		fam := rq.format
-		if fam == "tar.gz" {
+		if fam == "tar.gz" || fam == "tgz" || fam == "" {
 			fam = "tar" // same writer; the gzip layer is checked by decoding
 		}
 		add := func(key, what string) {
@@ -330,7 +346,7 @@ func runC50(c *fw.Ctx) {
 		if rq.format == "zip" {
 			op, oerr = c50ParseZip(ob)
 		} else {
-			op, oerr = c50ParseTar(ob, rq.format == "tar.gz")
+			op, oerr = c50ParseTar(ob, gzipped)
 		}
 		if oerr != nil {
 			add("go-git's archive cannot be parsed", oerr.Error())
@@ -343,7 +359,7 @@ func runC50(c *fw.Ctx) {
 		}
 		sort.Strings(kinds)
 		if len(kinds) > 0 {
-			pshape := map[string]string{"": "noprefix", "p/": "dirprefix", "p": "strprefix"}[rq.prefix]
+			pshape := map[string]string{"": "noprefix", "p/": "dirprefix", "p": "strprefix", "p/q/": "nestedprefix"}[rq.prefix]
 			c.Class(fmt.Sprintf("%s|%s|%s|%s|%s", rq.format, pshape, rq.fkind, rq.kind, strings.Join(kinds, ",")))
 		}
 		if len(op.Dups) > 0 {
@@ -371,7 +387,25 @@ func runC50(c *fw.Ctx) {
 			}
 			return o
 		}
-		if len(missing)+len(extra) > 0 {
+		if rq.ti < 0 {
+			// the extra requests: one key per kind of filter / tree-ish and direction.
+			// zip archives have no directory entries at all (known defect, keyed by the
+			// subset enumeration), so a missing directory entry is not reported again.
+			var miss []string
+			for _, k := range missing {
+				if !(rq.format == "zip" && k == "dir") {
+					miss = append(miss, k)
+				}
+			}
+			if len(miss) > 0 {
+				add(fmt.Sprintf("entries differ (%s filter, %s request): go-git lacks entries git archives", rq.fkind, rq.kind),
+					fmt.Sprintf("filters %q: git %v vs go-git %v", filters, names(gp), names(op)))
+			}
+			if len(extra) > 0 {
+				add(fmt.Sprintf("entries differ (%s filter, %s request): go-git archives entries git does not", rq.fkind, rq.kind),
+					fmt.Sprintf("filters %q: git %v vs go-git %v", filters, names(gp), names(op)))
+			}
+		} else if len(missing)+len(extra) > 0 {
 			add(fmt.Sprintf("entries differ: go-git lacks %v, has extra %v (%s filter)", uniq(missing), uniq(extra), rq.fkind),
 				fmt.Sprintf("git %v vs go-git %v", names(gp), names(op)))
 		}
@@ -393,7 +427,7 @@ func runC50(c *fw.Ctx) {
 			if ge.Data != oe.Data {
 				add(fmt.Sprintf("content of a %s entry differs", ge.Kind), n)
 			}
-			if rq.kind != "tree" && ge.MTime != oe.MTime {
+			if rq.kind != "tree" && rq.kind != "subtree" && ge.MTime != oe.MTime {
 				add(fmt.Sprintf("modification time of a %s entry differs (%s request)", ge.Kind, rq.kind), fmt.Sprintf("%s: git %d go-git %d", n, ge.MTime, oe.MTime))
 			}
 		}
